@@ -962,7 +962,7 @@ class TorControlProtocol(LineOnlyReceiver):
 
     def _is_end_line(self, line):
         "for FSM"
-        return line.strip() == '.'
+        return line == '.'
 
     def _is_not_end_line(self, line):
         "for FSM"
@@ -1011,6 +1011,9 @@ class TorControlProtocol(LineOnlyReceiver):
 
     def _accumulate_multi_response(self, line):
         "for FSM"
+        if line.startswith('.'):
+            # Tor prepends a period to data lines starting with one
+            line = line[1:]
         if self.command and self.command[2] is not None:
             self.command[2](line)
 
